@@ -35,6 +35,15 @@ def pinned_c03():
         ("C03-type-named-like-client", definition([obj("PinServiceClient", P, [field("a", S)])], [service("PinService", P, [endpoint("e", "GET", "/pin/e")])])),
         ("C03-enum-values-collide", definition([enum("Clash", P, ["FOO_1", "FOO1"])])),
         ("C03-type-vs-subpackage-module", definition([obj("Foo", P, [field("a", S)]), obj("Inner", P + ".foo", [field("b", S)])])),
+        ("C03-set-of-collection-with-double", definition([obj("Grid", P, [field("rows", set_(lst(prim("DOUBLE")))), field("maybe", set_(opt(prim("DOUBLE"))))])])),
+        ("C03-type-named-option-with-double", definition([obj("Option", P, [field("x", prim("DOUBLE"))]), alias("Some", P + ".other", prim("DOUBLE"))])),
+        ("C03-type-named-option-without-double", definition([obj("Option", P, [field("x", opt(S))]), union("Some", P, [field("a", S)]), enum("None", P, ["A"])])),
+        # witnesses of fixed findings stay in the workload as ordinary judged cases
+        ("C03-type-named-box-recursive", definition([obj("Leaf", P, [field("a", S)]), union("Box", P + ".other", [field("x", prim("INTEGER")), field("y", opt(ref("Leaf", P)))]),
+                                                     obj("Option", P, [field("next", opt(ref("Option", P))), field("vec", lst(ref("Box", P + ".other")))])])),
+        ("C03-keyword-members", definition([obj("Words", P, [field("try", S), field("await", S), field("async", S), field("type", S), field("self", S), field("new", S)]),
+                                            enum("Keys", P, ["TRY", "AWAIT", "SELF"])],
+                                           [service("WordService", P, [endpoint("try", "GET", "/w/{await}", [arg("await", S, "path"), arg("match", opt(S), "query", "match")])])])),
     ]
 
 
@@ -42,7 +51,7 @@ def c03_stage(prop, tier, seed, replay):
     from gen import LabGen, Profile
     build(["genrun"])
     rr = random.Random(seed * 31337 + 3)
-    n = 4 if tier == "quick" else 32
+    n = 16 if tier == "quick" else 96
     if replay:
         with open(replay) as f:
             doc = json.load(f)
@@ -101,6 +110,10 @@ def c03_stage(prop, tier, seed, replay):
                 if m:
                     code = m.group(1)
                     break
+            if pinned:
+                # pinned witnesses: the set of error codes among the first diagnostics
+                codes = sorted(set(re.findall(r"error\[(E\d+)\]", " ".join(errs))))
+                code = "+".join(codes) or code
             if pinned:
                 rep["pinned"][cs] = "compile-error:" + code
             else:
@@ -411,3 +424,281 @@ def judge_unknown(rep, det, cfg, d, cls, doc, client, server, extra, fail):
     for flag in ("same_twice", "reparse_equal"):
         if extra.get(flag) is False:
             return fail("unstable:%s:%s" % (flag, d.kind))
+
+
+# ------------------------------------------------------------------------------------------------
+# lab halves of C12 (PLAIN of generated enums / aliases), C14 (order/eq/hash laws of generated
+# types containing doubles) and C17 (generated error types)
+
+COLLIDING_DOUBLES = [float("nan"), 0.0, -0.0, 1.0, -1.0, float("inf"), float("-inf"), 1.5]
+
+
+def contains_double(g, t, seen=None):
+    seen = seen if seen is not None else set()
+    k = t["type"]
+    if k == "primitive":
+        return t["primitive"] == "DOUBLE"
+    if k in ("optional", "list", "set"):
+        return contains_double(g, t[k]["itemType"], seen)
+    if k == "map":
+        return contains_double(g, t["map"]["keyType"], seen) or contains_double(g, t["map"]["valueType"], seen)
+    if k == "external":
+        return contains_double(g, t["external"]["fallback"], seen)
+    n = t["reference"]["name"]
+    if n in seen:
+        return False
+    seen.add(n)
+    d = g.by_name[n]
+    if d.kind == "alias":
+        return contains_double(g, d.alias, seen)
+    if d.kind == "enum":
+        return False
+    return any(contains_double(g, ft, seen) for (_, ft, _) in d.fields)
+
+
+def typed_labs(tier, seed, tag, errors=0):
+    from gen import LabGen, Profile
+    rr = random.Random(seed * 9001 + fnv(tag) % 1000)
+    n = 2 if tier == "quick" else 8
+    labs = []
+    for i in range(n):
+        cs = rr.getrandbits(48)
+        cfg = {"exhaustive": i % 2 == 1, "serialize_empty": rr.random() < 0.5, "strip": rr.choice([None, "com.verif", "com.verif.lab"])}
+        g = LabGen(cs, Profile(n_types=40 if tier == "quick" else 60, services=0, errors=errors, hostile_names=True))
+        labs.append((cs, cfg, g))
+    specs = []
+    for i, (cs, cfg, g) in enumerate(labs):
+        ir = g.ir()
+        plain = [d.name for d in g.types if plain_capable(g, d)]
+        specs.append({"name": "%s%d" % (tag, i), "ir": ir, "cfg": cfg, "driver": lab.driver_source(ir, cfg, plain_types=plain)})
+    res = lab.build_labs("%s-%s" % (tag, tier), specs)
+    for i in range(len(labs)):
+        name = "%s%d" % (tag, i)
+        if res.gen.get(name, {}).get("status") != "ok" or not res.compiled.get(name):
+            raise Inconclusive("lab %s did not build (see ./check C03): %s %s" % (name, res.gen.get(name), res.errors.get(name)))
+    return res, labs
+
+
+def plain_stage(prop, tier, seed, replay):
+    """C12 lab half: PLAIN text of generated enums and aliases parses back to the same value."""
+    import wire
+    build(["genrun"])
+    res, labs = typed_labs(tier, seed, "plain")
+    rep = empty_report(prop)
+    distinct = set()
+    for i, (cs, cfg, g) in enumerate(labs):
+        r = random.Random(cs ^ 0xC12)
+        c = wire.Ctx(g, r, cfg["exhaustive"], cfg["serialize_empty"])
+        cases, info = [], {}
+        for d in g.types:
+            if not plain_capable(g, d):
+                continue
+            for k in range(8 if tier == "quick" else 40):
+                v = wire.gen_value(c, d.ref())
+                cid = len(cases) + 1
+                cases.append({"id": cid, "ty": d.name, "op": "plain", "doc": wire.render(c, v, d.ref(), wire.Style())})
+                info[cid] = (d, v)
+        results = lab.run_lab(res, "plain%d" % i, cases)
+        for cid, (d, v) in info.items():
+            out = results.get(cid) or {}
+            u = wire.unalias(v)
+            rep["evaluations"] += 1
+            cell = "lab-plain/%s/%s" % (d.kind, u[0])
+            rep["matrix"][cell] = rep["matrix"].get(cell, 0) + 1
+            distinct.add(fnv("%s|%s|%s" % (type_shape(g, d), u[0], cfg["exhaustive"])))
+            det = {"type": d.name, "kind": d.kind, "value": str(u)[:200], "observed": out, "config": cfg}
+            if out.get("roundtrip_equal") is not True:
+                rep["violations"].append(violation("lab-plain", cs, "generated:%s:plain-roundtrip-failed:%s" % (d.kind, u[0]), det))
+                continue
+            # spelling: enum wire name; string/rid/token/uuid verbatim; booleans lower case; non-finite doubles by name
+            text = out.get("text")
+            want = None
+            if u[0] in ("enum", "str", "rid", "token", "uuid"):
+                want = u[1]
+            elif u[0] == "bool":
+                want = "true" if u[1] else "false"
+            elif u[0] in ("int", "long"):
+                want = str(u[1])
+            elif u[0] == "dbl" and u[1] != u[1]:
+                want = "NaN"
+            elif u[0] == "dbl" and u[1] in (float("inf"), float("-inf")):
+                want = "Infinity" if u[1] > 0 else "-Infinity"
+            if want is not None and text != want:
+                rep["violations"].append(violation("lab-plain", cs, "generated:%s:plain-spelling:%s" % (d.kind, u[0]), det))
+            if len(rep["samples"]) < 2:
+                rep["samples"].append({"sub": "lab-plain", "case_seed": cs, "type": d.name, "plain": text})
+    rep["distinct"] = sorted(distinct)
+    if not replay:
+        rep["floors"]["lab-plain-cells"] = [4, len([k for k in rep["matrix"] if k.startswith("lab-plain/")])]
+    return rep
+
+
+def laws_stage(prop, tier, seed, replay):
+    """C14 lab half: order / equality / hash laws over all triples of values of every generated
+    type that contains a double, values drawn from a small colliding pool."""
+    import wire
+    build(["genrun"])
+    res, labs = typed_labs(tier, seed, "laws")
+    rep = empty_report(prop)
+    distinct = set()
+    orig = wire.SPECIAL_DOUBLES
+    for i, (cs, cfg, g) in enumerate(labs):
+        r = random.Random(cs ^ 0xC14)
+        c = wire.Ctx(g, r, cfg["exhaustive"], cfg["serialize_empty"])
+        cases, info = [], {}
+        wire.SPECIAL_DOUBLES = COLLIDING_DOUBLES
+        try:
+            for d in g.types:
+                if d.kind == "enum" or not contains_double(g, d.ref()):
+                    continue
+                docs = []
+                for k in range(14 if tier == "quick" else 30):
+                    try:
+                        # force the double generator onto the colliding pool
+                        state = r.getstate()
+                        v = gen_colliding(wire, c, d.ref())
+                    except wire.NoValue:
+                        break
+                    docs.append(wire.render(c, v, d.ref(), wire.Style()))
+                if len(docs) < 3:
+                    continue
+                docs += docs[:2]     # the same document twice must give equal values
+                cid = len(cases) + 1
+                cases.append({"id": cid, "ty": d.name, "op": "laws", "docs": docs})
+                info[cid] = (d, docs)
+        finally:
+            wire.SPECIAL_DOUBLES = orig
+        results = lab.run_lab(res, "laws%d" % i, cases)
+        for cid, (d, docs) in info.items():
+            out = results.get(cid) or {}
+            rep["evaluations"] += out.get("triples", 0)
+            cell = "lab-laws/%s" % d.kind
+            rep["matrix"][cell] = rep["matrix"].get(cell, 0) + 1
+            rep["matrix"]["lab-laws/nontrivial-equal-pairs"] = rep["matrix"].get("lab-laws/nontrivial-equal-pairs", 0) + out.get("nontrivial_equal_pairs", 0)
+            distinct.add(fnv("%s|%s" % (type_shape(g, d), cfg["exhaustive"])))
+            if out.get("parsed") != out.get("given") or "panic" in out:
+                rep["violations"].append(violation("lab-laws", cs, "generated:%s:documents-not-parsed" % d.kind, {"type": d.name, "observed": out, "docs": docs[:3]}))
+                continue
+            for bad in out.get("violations", []):
+                rep["violations"].append(violation("lab-laws", cs, "generated:%s:%s" % (d.kind, bad["law"]),
+                                                   {"type": d.name, "law": bad["law"], "documents": [docs[j] for j in bad["docs"] if j < len(docs)][:3], "config": cfg}))
+            if len(rep["samples"]) < 2:
+                rep["samples"].append({"sub": "lab-laws", "case_seed": cs, "type": d.name, "documents": docs[:3]})
+    rep["distinct"] = sorted(distinct)
+    if not replay:
+        rep["floors"]["lab-types-with-doubles"] = [10, sum(v for k, v in rep["matrix"].items() if k.startswith("lab-laws/") and not k.endswith("pairs"))]
+    return rep
+
+
+def gen_colliding(wire, c, t):
+    """A value whose doubles come from the colliding pool only."""
+    real = c.r.random
+    v = None
+    class Biased:
+        pass
+    orig_gen = wire.gen_scalar
+    def gen_scalar(cc, p):
+        if p == "DOUBLE":
+            return ("dbl", cc.r.choice(COLLIDING_DOUBLES))
+        return orig_gen(cc, p)
+    wire.gen_scalar = gen_scalar
+    try:
+        return wire.gen_value(c, t)
+    finally:
+        wire.gen_scalar = orig_gen
+
+
+def errors_stage(prop, tier, seed, replay):
+    """C17 lab half: generated error types -- name, code, sorted safe_args equal to the definition,
+    parameters = stringified scalar arguments, partition by declared safety."""
+    import wire, math
+    build(["genrun"])
+    res, labs = typed_labs(tier, seed, "errs", errors=8)
+    rep = empty_report(prop)
+    distinct = set()
+    for i, (cs, cfg, g) in enumerate(labs):
+        r = random.Random(cs ^ 0xC17)
+        c = wire.Ctx(g, r, cfg["exhaustive"], cfg["serialize_empty"])
+        cases, info = [], {}
+        ir_errors = {e["errorName"]["name"]: e for e in g.errors}
+        for d in g.error_defs:
+            for k in range(6 if tier == "quick" else 30):
+                try:
+                    v = wire.gen_value(c, d.ref())
+                except wire.NoValue:
+                    break
+                cid = len(cases) + 1
+                cases.append({"id": cid, "ty": d.name, "op": "error", "doc": wire.render(c, v, d.ref(), wire.Style())})
+                info[cid] = (d, v)
+        results = lab.run_lab(res, "errs%d" % i, cases)
+        for cid, (d, v) in info.items():
+            out = results.get(cid) or {}
+            e = ir_errors[d.name]
+            rep["evaluations"] += 1
+            det = {"error": d.name, "observed": json.dumps(out)[:800], "definition": {"safeArgs": [f["fieldName"] for f in e["safeArgs"]], "unsafeArgs": [f["fieldName"] for f in e["unsafeArgs"]]}}
+            def fail(sig):
+                rep["violations"].append(violation("lab-errors", cs, "generated-error:" + sig, det))
+            if "parameters" not in out:
+                fail("not-encoded")
+                continue
+            safe_names = sorted(f["fieldName"] for f in e["safeArgs"])
+            if out.get("name") != "%s:%s" % (e["namespace"], d.name):
+                fail("name")
+            code = "".join(w.capitalize() for w in e["code"].split("_"))
+            if out.get("code") != code:
+                fail("code")
+            if out.get("safe_args") != safe_names:
+                fail("safe-args-not-sorted-or-not-equal-to-definition")
+            if out.get("instance_ids_differ") is not True:
+                fail("instance-id-not-fresh")
+            params = out["parameters"]
+            for (fn, fv) in v[2]:
+                u = wire.unalias(fv)
+                while u[0] == "opt" and u[1] is not None:
+                    u = wire.unalias(u[1])
+                kind = u[0]
+                cell = "lab-error-param/" + kind
+                rep["matrix"][cell] = rep["matrix"].get(cell, 0) + 1
+                distinct.add(fnv("%s|%s" % (kind, fn in safe_names)))
+                got = params.get(fn)
+                if kind in ("list", "set", "map", "obj", "union", "bin") or (kind == "opt"):
+                    if got is not None:
+                        fail("non-scalar-parameter-not-omitted:" + kind)
+                    continue
+                if kind in ("time", "token", "long", "any"):
+                    continue      # observed-only (DESIGN C17 FA)
+                if got is None:
+                    fail("scalar-parameter-missing:" + kind)
+                    continue
+                ok = True
+                if kind in ("str", "uuid", "rid", "enum"):
+                    ok = got == u[1]
+                elif kind == "bool":
+                    ok = got == ("true" if u[1] else "false")
+                elif kind == "int":
+                    ok = got == str(u[1])
+                elif kind == "dbl":
+                    x = u[1]
+                    if math.isnan(x) or math.isinf(x):
+                        ok = True      # non-finite: observed-only
+                    else:
+                        try:
+                            ok = float(got) == x
+                        except ValueError:
+                            ok = False
+                if not ok:
+                    fail("parameter-text:" + kind)
+                side = "service_safe_params" if fn in safe_names else "service_unsafe_params"
+                other = "service_unsafe_params" if fn in safe_names else "service_safe_params"
+                if fn not in out.get(side, []) or fn in out.get(other, []):
+                    fail("partition:" + ("declared-safe" if fn in safe_names else "declared-unsafe"))
+            extra = set(params) - set(fn for fn, _ in v[2])
+            if extra:
+                fail("undeclared-parameter")
+            if len(rep["samples"]) < 2:
+                rep["samples"].append({"sub": "lab-errors", "case_seed": cs, "error": d.name, "parameters": params})
+    rep["distinct"] = sorted(distinct)
+    if not replay:
+        rep["floors"]["lab-error-param-kinds"] = [5, len([k for k in rep["matrix"] if k.startswith("lab-error-param/")])]
+    rep["violations"] = rep["violations"][:100]
+    return rep
